@@ -118,11 +118,39 @@ def proj_resources(tr):
 
 
 # ------------------------------------------------------------------ model request / judge
+def drop_foreign(script):
+    """the script without its foreign datagrams (src != 0), their delays added to the next datagram; the
+    driver checks that this equals the Lean `dropForeign` (and that `foreignOK` holds) before using the twin"""
+    def add_delay(e, s):
+        if s and s[0][0] == "pkt":
+            return [["pkt", e + s[0][1]] + list(s[0][2:])] + s[1:]
+        return s
+    out = []
+    for ev in reversed(script):
+        if ev[0] == "silence" or ev[3] == 0:
+            out = [list(ev)] + out
+        else:
+            out = add_delay(ev[1], out)
+    return out
+
+
+def foreign_ok(script):
+    for i, ev in enumerate(script):
+        if ev[0] == "pkt" and ev[3] != 0:
+            rest = drop_foreign(script[i + 1:])
+            if ev[2] != 0 or (ev[1] != 0 and rest and rest[0][0] == "silence"):
+                return False
+    return True
+
+
 def model_request(case, obs):
     req = {"op": "tftp.session", "cfg": case["cfg"], "datagram": case["datagram"],
            "handlers": case["handlers"], "script": case.get("script", [])}
     if obs and "transfers" in obs and len(obs["transfers"]) == 1:
         req["impl_trace"] = obs["transfers"][0]
+        if case.get("twin_script") is not None and len(obs.get("twin_transfers") or []) == 1:
+            req["twin_script"] = case["twin_script"]
+            req["twin_trace"] = obs["twin_transfers"][0]
     if obs and "main" in obs:
         req["impl_main"] = [e[1] for e in obs["main"] if e[0] == "send"]
         req["impl_transfers"] = len(obs.get("transfers", []))
